@@ -75,6 +75,9 @@ def run(repo, rep, tier):
           continue
         fn = norm(rd.expand(n, call.func)[0])      # a local alias of the container class is looked through
         ok = fn.endswith('EstimatedTimeSeriesWithConfidenceInterval')
+        if not ok and not (fn.split('.')[-1][:1].isupper() or fn.startswith('pd.') or fn.startswith('pandas.')):
+          rep.undecided('R4/container', name, 'the returned %s is built by `%s(...)`: a helper whose result type is not followed' % (name, fn[-50:]), f.loc(call))
+          continue
         rep.check(ok, 'R4/container', '%s is built by the validating container' % name, f.qualname, '%s = %s(...)' % (name, fn[-50:]),
                   '%s is built by %s, not by the container that enforces lower <= estimate <= upper' % (name, fn), f.loc(call))
         if (n, call) not in [(a_, b_) for a_, b_ in seen_sites]:
@@ -138,15 +141,20 @@ def run(repo, rep, tier):
   for a, b, what in (('estimate', 'estimate', 'counterfactual + difference == observed'), ('lower', 'upper', 'counterfactual lower + difference upper == observed'),
                      ('upper', 'lower', 'counterfactual upper + difference lower == observed')):
     try:
-      ok = sympy.simplify(term(cn, cf[a]) + term(pn, pw[b]) - obs) == 0
+      resid = sympy.simplify(term(cn, cf[a]) + term(pn, pw[b]) - obs)
+      ok = resid == 0
+      # the identity is linear: decided when the residue cancels; a residue over opaque terms is a recognised mismatch only
+      # when both columns are built from the two known series (observed, bounds) alone
+      closed = not (au.aliens(rd.expand(cn, cf[a], keep=keep)[0], set(keep) | {mname}) or au.aliens(rd.expand(pn, pw[b], keep=keep)[0], set(keep) | {mname}))
     except (Undecided, KeyError):
-      ok = False
-    rep.check(ok, 'R1/column-algebra', what, f.qualname, 'cf.%s=%s ; pw.%s=%s' % (a, norm(cf.get(a))[:50] if cf.get(a) is not None else '?', b, norm(pw.get(b))[:50] if pw.get(b) is not None else '?'),
+      ok, closed = False, False
+    rep.check3(True if ok else (False if closed else None), 'R1/column-algebra', what, f.qualname, 'cf.%s=%s ; pw.%s=%s' % (a, norm(cf.get(a))[:50] if cf.get(a) is not None else '?', b, norm(pw.get(b))[:50] if pw.get(b) is not None else '?'),
               'in the effect-series report %s does not hold: counterfactual %s is `%s` and pointwise %s is `%s`' % (
-                  what, a, norm(cf.get(a))[:60] if cf.get(a) is not None else '?', b, norm(pw.get(b))[:60] if pw.get(b) is not None else '?'), f.loc(cn.ast))
+                  what, a, norm(cf.get(a))[:60] if cf.get(a) is not None else '?', b, norm(pw.get(b))[:60] if pw.get(b) is not None else '?'), f.loc(cn.ast),
+               why_open='the columns read names the expansion did not resolve')
   if tv is not None:
     t = norm(rd.expand(tv, tv.ast.value, keep=('metric_data', 'metric_col'))[0])
-    rep.check(t == 'metric_data.loc[metric_data[self.df_names.group] == self.groups.treatment, metric_col].reset_index(drop=True)', 'R1/column-algebra',
+    rep.check_term(t == 'metric_data.loc[metric_data[self.df_names.group] == self.groups.treatment, metric_col].reset_index(drop=True)', t, ('metric_data', 'metric_col'), 'R1/column-algebra',
               'observed series = treatment rows of the metric', f.qualname, 'treat_vec = ' + t[:120], 'the observed series is `%s`' % t[:100], f.loc(tv.ast))
   # pointwise bounds: pre-period residuals followed by first differences of the cumulative quantiles of ONE distribution
   dist = None
@@ -159,7 +167,8 @@ def run(repo, rep, tier):
     t = norm(rd.expand(d.node, d.value, keep=('delta_metric', 'pointwise_difference', 'test_start_date', 'tail_probability'), depth=3)[0])
     pat = r"np\.concatenate\(\(pointwise_difference\.loc\[pointwise_difference\['date'\] < test_start_date, 'metric'\]\.values, np\.diff\((\w+)\.ppf\(%s\), prepend=0\)\)\)" % re.escape(qarg)
     m = re.fullmatch(pat, t)
-    rep.check(m is not None, 'R2/same-distribution', 'pointwise %s = [pre-period residuals, first differences of the cumulative %s quantile]' % (bound, qarg), f.qualname,
+    rep.check_term(m is not None, rd.expand(d.node, d.value, keep=('delta_metric', 'pointwise_difference', 'test_start_date', 'tail_probability'))[0],
+                   ('delta_metric', 'pointwise_difference', 'test_start_date', 'tail_probability', mname), 'R2/same-distribution', 'pointwise %s = [pre-period residuals, first differences of the cumulative %s quantile]' % (bound, qarg), f.qualname,
               '%s = %s' % (bound, t[:160]), 'the pointwise %s bound is `%s`: not the residuals before the test followed by the first differences of the cumulative posterior quantile at %s'
               % (bound, t[:140], qarg), f.loc(d.node.ast))
     if m:
@@ -167,19 +176,22 @@ def run(repo, rep, tier):
       rep.check(m.group(1) == dist, 'R2/same-distribution', 'both pointwise bounds use one posterior object', f.qualname, m.group(1), 'bounds use different posterior objects', f.loc(d.node.ast))
   for bound, qarg in (('lower', 'tail_probability'), ('upper', '1 - tail_probability')):
     t = norm(rd.expand(un, cu[bound], keep=tuple(x for x in (dist, 'tail_probability') if x))[0]) if bound in cu else ''
-    rep.check(dist is not None and t == '%s.ppf(%s)' % (dist, qarg), 'R2/same-distribution', 'cumulative %s = posterior quantile at %s of the same object' % (bound, qarg), f.qualname,
+    if dist is None:
+      rep.undecided('R2/same-distribution', 'cumulative %s' % bound, 'the posterior object of the pointwise bounds was not identified', f.loc(un.ast))
+      continue
+    rep.check_term(t == '%s.ppf(%s)' % (dist, qarg), t, (dist, 'tail_probability', mname), 'R2/same-distribution', 'cumulative %s = posterior quantile at %s of the same object' % (bound, qarg), f.qualname,
               'cumulative %s = %s' % (bound, t[:80]), 'the cumulative %s bound is `%s`, not the %s quantile of the posterior whose differences give the pointwise bounds' % (bound, t[:80], qarg), f.loc(un.ast))
   if dist:
     dd = rd.single_def(un, dist)
     t = mtext(rd.expand(dd.node, dd.value, keep=(mname,))[0]) if dd is not None and dd.value is not None else ''
-    rep.check(t == 'metric_df.causal_cumulative_distribution()', 'R2/same-distribution', 'the posterior is the cumulative distribution of the chosen metric', f.qualname,
+    rep.check_term(t == 'metric_df.causal_cumulative_distribution()', t, ('metric_df',), 'R2/same-distribution', 'the posterior is the cumulative distribution of the chosen metric', f.qualname,
               '%s = %s' % (dist, t), 'the posterior object is `%s`' % t, f.loc())
   et = mtext(rd.expand(un, cu['estimate'], keep=(mname, 'periods', 'test_start_date', 'cooldown_end_date'), depth=4)[0]) if 'estimate' in cu else ''
   want = cn_.ctext("np.cumsum(metric_df.causal_effect(periods)).reset_index().rename(columns={0: 'metric'}).loc[np.cumsum(metric_df.causal_effect(periods)).reset_index().rename(columns={0: 'metric'})['date'].between(test_start_date, cooldown_end_date), 'metric']")
-  rep.check(et == want, 'R2/same-distribution', 'cumulative estimate = cumsum of the causal effect restricted to experiment dates', f.qualname, 'estimate = ' + et[:200],
+  rep.check_term(et == want, et, ('metric_df', 'periods', 'test_start_date', 'cooldown_end_date'), 'R2/same-distribution', 'cumulative estimate = cumsum of the causal effect restricted to experiment dates', f.qualname, 'estimate = ' + et[:200],
             'the cumulative estimate is `%s`' % et[:180], f.loc(un.ast))
   pe = mtext(rd.expand(pn, pw['estimate'], keep=(mname, 'periods'), depth=4)[0])
-  rep.check(pe == "metric_df.causal_effect(periods).reset_index().rename(columns={0: 'metric'})['metric']", 'R2/same-distribution',
+  rep.check_term(pe == "metric_df.causal_effect(periods).reset_index().rename(columns={0: 'metric'})['metric']", pe, ('metric_df', 'periods'), 'R2/same-distribution',
             'pointwise estimate = causal effect over pre, test and cooldown periods', f.qualname, 'estimate = ' + pe[:140], 'the pointwise estimate is `%s`' % pe[:120], f.loc(pn.ast))
   # fixed-cost branch
   cn2, cf2 = pick('counterfactual_df', False)
@@ -274,6 +286,14 @@ def run(repo, rep, tier):
             succ = [m for m, l_ in ig.succ[tn] if l_ == lab]
             if want in forms and succ and ig.exit not in ig.reachable(succ[0], cfgmod.no_exc):
               found = True
+      if not found:
+        # some test of the container mentions both columns, or a helper is called with them: the guard exists in a form that is not followed
+        cols_ = re.findall(r"'(\w+)'", want)
+        mention = [tn for tn in ig.nodes for e_ in ictx.node_exprs(tn) if all(("'%s'" % c_) in norm(ictx.rd.expand(tn, e_)[0]) for c_ in cols_)
+                   and (tn.kind == 'test' or any(isinstance(y_, (ast.Call, ast.Compare)) for y_ in ast.walk(e_)))]
+        if mention:
+          rep.undecided('R4/container', 'container guard: %s' % what, 'the columns are compared at line %s in a form that is not followed' % getattr(mention[0].ast or mention[0].expr, 'lineno', '?'), init.loc())
+          continue
       rep.check(found, 'R4/container', 'container guard: %s' % what, init.qualname, what, 'the series container does not enforce that %s' % what, init.loc())
   # R5 shared input rules
   tbrrules.tbr_aggregation(repo, rep, 'R5/analysis-data')
